@@ -65,7 +65,7 @@ func main() {
 		Assumptions: []string{
 			"timing clauses are lower bounds only: completion >= sum of the halts that must have fired; >= sum over throttle intervals of (ceil(bytes/bandwidth) - 2) s minus 0.5 s of scheduling slack; upper bounds are never asserted",
 			"a halt or close 'must fire' on a response only if its count cannot have been used up by other responses that started before this one completed",
-			"an action whose offset equals the end of the response (range start + length) may or may not fire: both are accepted",
+			"a close action whose offset equals the end of the response (range start + length) must close the connection; this is judged only when a later exchange on that connection shows whether it stayed open (a halt at that offset is not observable)",
 			"after an accepted reconfiguration, connections accepted earlier may keep the old shaping or have none (the statement only says the new one does not apply to them)",
 			"chunked responses, multi-range responses and HTTPS (MITM) are not driven; latency, global and default bandwidths are configured (with values that never dominate) but no delay is asserted for them",
 			"configurations outside the classes named by the statement (zero counts, missing url_regex or trafficshape member, non-JSON bodies, null shapes, zero bandwidth, counts below -1) may be accepted or rejected; if rejected, shaping must be unchanged",
@@ -200,7 +200,42 @@ func (l *nullListener) Close() error {
 func (l *nullListener) Addr() net.Addr { return &net.TCPAddr{IP: net.IPv4(127, 0, 0, 1), Port: 1} }
 
 func postTo(h *trafficshape.Handler, body string) int {
-	req := httptest.NewRequest("POST", "http://martian.proxy/shape-traffic", strings.NewReader(body))
+	return postReader(h, strings.NewReader(body))
+}
+
+// gatedBody delivers the first half of a request body, then signals that it
+// is stalled and delivers the rest only when released: a configuration upload
+// that is in progress while other things happen.
+type gatedBody struct {
+	data    []byte
+	off     int
+	stalled chan struct{}
+	release chan struct{}
+	once    sync.Once
+}
+
+func newGatedBody(body string) *gatedBody {
+	return &gatedBody{data: []byte(body), stalled: make(chan struct{}), release: make(chan struct{})}
+}
+
+func (g *gatedBody) Read(p []byte) (int, error) {
+	half := len(g.data) / 2
+	if g.off < half {
+		n := copy(p, g.data[g.off:half])
+		g.off += n
+		return n, nil
+	}
+	g.once.Do(func() { close(g.stalled); <-g.release })
+	if g.off >= len(g.data) {
+		return 0, io.EOF
+	}
+	n := copy(p, g.data[g.off:])
+	g.off += n
+	return n, nil
+}
+
+func postReader(h *trafficshape.Handler, body io.Reader) int {
+	req := httptest.NewRequest("POST", "http://martian.proxy/shape-traffic", body)
 	req.Header.Set("Content-Type", "application/json")
 	rw := httptest.NewRecorder()
 	h.ServeHTTP(rw, req)
@@ -449,10 +484,21 @@ func defaultsOf(l *trafficshape.Listener) defaultsSnap {
 }
 
 func (st *state) doPost(r *vh.Run, c interface{}, l *trafficshape.Listener, h *trafficshape.Handler, cfg *shapex.Config) bool {
+	return st.doPostVia(r, c, l, h, cfg, nil)
+}
+
+// doPostVia: with a gate, the body is uploaded through it (the caller
+// releases it).
+func (st *state) doPostVia(r *vh.Run, c interface{}, l *trafficshape.Listener, h *trafficshape.Handler, cfg *shapex.Config, gate *gatedBody) bool {
 	body := cfg.JSON()
 	before := defaultsOf(l)
 	t0 := time.Now()
-	code := postTo(h, body)
+	var code int
+	if gate != nil {
+		code = postReader(h, gate)
+	} else {
+		code = postTo(h, body)
+	}
 	if code/100 != 2 {
 		// rejected: the listener's defaults (bucket capacities, latency,
 		// Defaults()) must be what they were
@@ -511,16 +557,19 @@ type obs struct {
 	BytesOK   bool
 	MITM      bool
 	Fin       string
-	Stalled   bool // no further byte will arrive: the system is quiescent
-	TSend     time.Time
-	TDone     time.Time
-	ConnGen   int
-	SendGen   int
-	Overlap   bool
-	AfterRej  bool
-	Conc      int
-	Ranged    bool
-	Detail    string
+	// answeredAfter: a later exchange on the same connection received a
+	// response head, i.e. the connection was still open after this response
+	answeredAfter bool
+	Stalled       bool // no further byte will arrive: the system is quiescent
+	TSend         time.Time
+	TDone         time.Time
+	ConnGen       int
+	SendGen       int
+	Overlap       bool
+	AfterRej      bool
+	Conc          int
+	Ranged        bool
+	Detail        string
 }
 
 func (o *obs) lenient() bool { return o.ConnGen != o.SendGen || o.Overlap }
@@ -748,6 +797,29 @@ func judge(r *vh.Run, c interface{}, st *state) {
 		}
 		if bad {
 			continue
+		}
+		// 3b. a close action exactly at the end of the response (offset == range
+		// start + length): "delivers ... the body bytes before k and then
+		// closes". Judged only when the connection's fate is known: another
+		// exchange was answered on it afterwards, so it demonstrably stayed open.
+		if total, ok := byOff[o.S+o.L]; ok && o.Delivered == o.L && !o.Closed && o.Fin == "" && o.answeredAfter {
+			off := o.S + o.L
+			used, amb := int64(0), int64(0)
+			for _, p := range group {
+				if p == o || !p.TSend.Before(o.TDone) {
+					continue
+				}
+				if p.S+p.Delivered == off && (p.Delivered < p.L || p.Closed) {
+					used++
+				} else if p.S+p.L == off && p.Delivered == p.L && !p.answeredAfter {
+					amb++ // ended there as well and nobody knows whether its connection was closed
+				}
+			}
+			if total < 0 || used+amb < total {
+				viol(o, "C18:cut:missing:"+o.ctx(), fmt.Sprintf("the response ended exactly at offset %d, whose close action has count %d (only %d(+%d possibly) closes happened there before), but the connection was not closed: a later exchange on it was answered", off, total, used, amb), nil)
+				continue
+			}
+			r.Count("end_of_response_closes_judged", 1)
 		}
 		// 4. halts: lower bound on completion
 		elapsed := o.TDone.Sub(o.TSend)
@@ -1233,6 +1305,9 @@ func (cc *cconn) do(st *state, q reqSpec, conc int, headSeen func()) (*obs, erro
 			return o, nil
 		}
 	}
+	if cc.last != nil {
+		cc.last.answeredAfter = true
+	}
 	if headSeen != nil {
 		headSeen()
 	}
@@ -1325,11 +1400,14 @@ func (cc *cconn) do(st *state, q reqSpec, conc int, headSeen func()) (*obs, erro
 }
 
 type phase struct {
-	Pre   *shapex.Config
-	Mid   *shapex.Config
-	Open  int
-	Reqs  map[int][]reqSpec // by connection id
-	Close []int
+	Pre *shapex.Config
+	Mid *shapex.Config
+	// DuringPre: connections opened (and accepted by the proxy) while the
+	// upload of Pre is stalled half-way; they belong to the generation before Pre
+	DuringPre int
+	Open      int
+	Reqs      map[int][]reqSpec // by connection id
+	Close     []int
 }
 
 type scenario struct {
@@ -1452,6 +1530,24 @@ func genScenario(r *vh.Run, sc scenCase) *scenario {
 		slots2 = rng.Perm(3)[:1+rng.Intn(3)]
 	}
 	cfg2 := shapex.GenValid(rng, shapex.GenOpts{Gen: 2, Slots: slots2, Res: s.Res, Halts: rng.Intn(2) == 0, MaxHalt: maxHalt, Closes: true, Throttle: "loose", Global: false, CloseAll: true})
+	// the second configuration often names the shared slots with the very same
+	// url_regex strings (a connection's buckets are keyed by them)
+	sameRegex := rng.Intn(2) == 0
+	px := sc.Profile == "px"
+	if px && sc.Idx%5 == 1 && len(cfg2.Shapes) > 0 {
+		s.Variant = "upload-reconfig"
+		sameRegex = true
+	}
+	if px && sc.Idx%5 == 0 {
+		s.Variant = "end-close"
+	}
+	if sameRegex {
+		for i := range cfg2.Shapes {
+			if sh1 := cfg1.ShapeFor(cfg2.Shapes[i].Slot); sh1 != nil {
+				cfg2.Shapes[i].Regex = sh1.Regex
+			}
+		}
+	}
 	offs := allOffsets(cfg1, cfg2)
 	connID := 0
 	mkReqs := func(conns []int, perConn int) map[int][]reqSpec {
@@ -1496,6 +1592,56 @@ func genScenario(r *vh.Run, sc scenCase) *scenario {
 	c0 := open(conc)
 	p0 := phase{Pre: cfg1, Open: conc, Reqs: mkReqs(c0, 3)}
 	switch s.Variant {
+	case "upload-reconfig":
+		// the second configuration is uploaded slowly; connections accepted while
+		// the upload is stalled belong to the first configuration
+		during := open(1 + rng.Intn(2))
+		n1 := open(1 + rng.Intn(2))
+		keep := c0[:rng.Intn(len(c0)+1)]
+		all := append(append(append([]int{}, keep...), during...), n1...)
+		p1 := phase{Pre: cfg2, DuringPre: len(during), Open: len(n1), Reqs: mkReqs(all, 3)}
+		// make sure the connections of the upload window ask for URLs the new
+		// configuration shapes (whole resources: its always-close lies in the middle)
+		for _, id := range during {
+			slot := cfg2.Shapes[rng.Intn(len(cfg2.Shapes))].Slot
+			p1.Reqs[id] = append([]reqSpec{{Slot: slot, ID: uint32(100 * (slot + 2)), N: s.Res[slot], S: -1, E: -1, W: rng.Int63n(1 << 40)}}, p1.Reqs[id]...)
+		}
+		s.Phases = []phase{p0, p1}
+	case "end-close":
+		// close actions exactly at the end of responses (offset == range start +
+		// length) on keep-alive connections, one connection after the other, each
+		// followed by a probe exchange that tells whether the connection survived
+		slot := rng.Intn(3)
+		n := s.Res[slot]
+		cnt := []int64{1, 2, -1}[rng.Intn(3)]
+		sh := shapex.Shape{Slot: slot, Regex: shapex.RegexFor(rng, slot), Closes: []shapex.Close{{Byte: n, Count: cnt}}}
+		if rng.Intn(2) == 0 {
+			sh.Halts = []shapex.Halt{{Byte: rng.Int63n(n + 1), DurMs: int64(5 + rng.Intn(40)), Count: -1}}
+		}
+		if rng.Intn(2) == 0 && n > 8 {
+			m := 1 + rng.Int63n(n-2)
+			sh.Closes = append(sh.Closes, shapex.Close{Byte: m, Count: 1}) // and one in the middle, used up by the first to cross it
+		}
+		cfgE := &shapex.Config{Class: "valid", Shapes: []shapex.Shape{sh}}
+		s.Phases = nil
+		connID = 0
+		for i, k := 0, 3+rng.Intn(2); i < k; i++ {
+			id := open(1)[0]
+			q := reqSpec{Slot: slot, ID: uint32(100 * (slot + 2)), N: n, S: -1, E: -1, W: rng.Int63n(1 << 40)}
+			switch rng.Intn(3) {
+			case 0:
+				q.S = rng.Int63n(n)
+			case 1:
+				q.S = rng.Int63n(n)
+				q.E = n - 1
+			}
+			probe := reqSpec{Slot: -1, ID: 42, N: int64(1 + rng.Intn(50)), S: -1, E: -1, W: 9}
+			ph := phase{Open: 1, Reqs: map[int][]reqSpec{id: {q, probe}}}
+			if i == 0 {
+				ph.Pre = cfgE
+			}
+			s.Phases = append(s.Phases, ph)
+		}
 	case "plain":
 		// some connections go on, some new ones join
 		keep := c0[:1+rng.Intn(len(c0))]
@@ -1724,7 +1870,41 @@ func runScenario(r *vh.Run, c scenCase, s *scenario, skipCensus *bool) *state {
 	totalConns := 0
 	for pi := range s.Phases {
 		ph := &s.Phases[pi]
-		if ph.Pre != nil {
+		if ph.Pre != nil && ph.DuringPre > 0 {
+			gate := newGatedBody(ph.Pre.JSON())
+			res := make(chan bool, 1)
+			go func() { res <- st.doPostVia(r, c, g.tsl, g.h, ph.Pre, gate) }()
+			<-gate.stalled
+			oldGen, _, _ := st.stamp()
+			preS := serveIDs()
+			opened := 0
+			for i := 0; i < ph.DuringPre; i++ {
+				cn, err := net.Dial("tcp", g.addr)
+				if err != nil {
+					break
+				}
+				conns = append(conns, &cconn{id: len(conns), mitm: false, raw: cn, c: cn, br: bufio.NewReaderSize(cn, 64<<10), gen: oldGen})
+				totalConns++
+				opened++
+			}
+			deadline := time.Now().Add(60 * time.Second)
+			for newOf(serveIDs(), preS) < opened && time.Now().Before(deadline) {
+				time.Sleep(2 * time.Millisecond)
+			}
+			accepted := newOf(serveIDs(), preS) >= opened
+			close(gate.release)
+			ok := <-res
+			if !accepted || opened < ph.DuringPre {
+				r.SetCase(c)
+				r.Inconclusive("connections opened during a configuration upload were not accepted in time", nil)
+				watchdog = true
+				break
+			}
+			r.Count("connections_accepted_during_upload", int64(opened))
+			if !ok {
+				break
+			}
+		} else if ph.Pre != nil {
 			if !st.doPost(r, c, g.tsl, g.h, ph.Pre) {
 				break
 			}
